@@ -4,7 +4,7 @@
 Translated (Python `ast` -> Gallina text):
   mro.py      Order.opposite, Order.merge, the issubclass fallback at the end of typeorder
   typemap.py  Candidate.sort_key, Candidate.dominates, the arity / required-keyword filter of MultiTypeMap.mro,
-              the grouping loop of MultiTypeMap.mro._pull
+              the grouping loop of MultiTypeMap.mro._pull, the code-key decision chain of MultiTypeMap.__missing__
 coq/Proofs/LeafAgree.v proves the generated definitions extensionally equal to the hand-written ones the model uses
 (Model/Order.v, Model/Resolve.v) with edit-tolerant scripts, so a harmless respelling re-proves while a semantic edit
 (>= -> >, a dropped branch, a swapped LESS/MORE) breaks a proof obligation.
@@ -234,6 +234,54 @@ def tr_arity(tree):
     return "Definition arity_ok_src (m : meth) (nargs : nat) (names : list nat) : bool :=\n  " + cond(target) + "."
 
 
+# ---- the code-key branch of MultiTypeMap.__missing__ ------------------------------------------------------------------
+def tr_missing(tree):
+    """if obj_t_tup and isinstance(obj_t_tup[0], CodeType): real_tup = obj_t_tup[1:]; self[real_tup]; <if chain>
+    -> missing_code_src (foreign remembered stored : bool) : code_action"""
+    fn = _find(tree, "MultiTypeMap", "__missing__")
+    branch = None
+    for st in fn.body:
+        if isinstance(st, ast.If) and "CodeType" in ast.unparse(st.test):
+            branch = st
+            break
+    if branch is None:
+        raise Unsupported("code-key branch not found")
+    pre = [ast.unparse(x) for x in branch.body[:-1]]
+    if pre != ["real_tup = obj_t_tup[1:]", "self[real_tup]"]:
+        raise Unsupported("statements before the chain: " + "; ".join(pre))
+    chain = branch.body[-1]
+    if not isinstance(chain, ast.If):
+        raise Unsupported("no decision chain")
+    ATOMS = {"obj_t_tup[0] not in self.all[real_tup]": "foreign", "obj_t_tup[0] in self.all[real_tup]": "negb foreign",
+             "obj_t_tup in self.errors": "remembered", "obj_t_tup not in self.errors": "negb remembered",
+             "obj_t_tup in self": "stored", "obj_t_tup not in self": "negb stored"}
+    ACTIONS = {"return self[real_tup]": "CA_plain", "raise self.errors[obj_t_tup]": "CA_error",
+               "return self[obj_t_tup]": "CA_entry", "raise self.key_error(real_tup, ())": "CA_nomethod"}
+
+    def cond(e):
+        src = ast.unparse(e)
+        if src in ATOMS:
+            return ATOMS[src]
+        if isinstance(e, ast.BoolOp):
+            op = " && " if isinstance(e.op, ast.And) else " || "
+            return "(" + op.join(cond(v) for v in e.values) + ")"
+        if isinstance(e, ast.UnaryOp) and isinstance(e.op, ast.Not):
+            return "negb (" + cond(e.operand) + ")"
+        raise Unsupported(src)
+
+    def stmts(b):
+        if len(b) == 1 and ast.unparse(b[0]) in ACTIONS:
+            return ACTIONS[ast.unparse(b[0])]
+        if len(b) >= 1 and isinstance(b[0], ast.If):
+            i = b[0]
+            els = i.orelse if i.orelse else b[1:]
+            if not els:
+                raise Unsupported("if without else")
+            return f"(if {cond(i.test)} then {stmts(i.body)} else {stmts(els)})"
+        raise Unsupported("statement " + ast.unparse(b[0])[:60])
+    return "Definition missing_code_src (foreign remembered stored : bool) : code_action :=\n  " + stmts([chain]) + "."
+
+
 # ---- the class fallback at the end of typeorder ---------------------------------------------------------------------
 def tr_tail(tree):
     """sx = issubclass(t1, t2); sy = issubclass(t2, t1); if/elif chain over sx, sy returning Order constants
@@ -349,7 +397,7 @@ HEADER = """(* GENERATED by vlib/translator/leaf.py from /repo/src/ovld/{mro,typ
    Proofs/LeafAgree.v proves these equal to the hand-written definitions the model uses. *)
 From Coq Require Import ZArith List Bool Arith.
 Import ListNotations.
-From OvldV Require Import Model.Order Model.Ty Model.Resolve.
+From OvldV Require Import Model.Order Model.Ty Model.Resolve Model.Cache.
 
 Fixpoint all2_src (f : nat -> nat -> bool) (l1 l2 : list nat) : bool :=
   match l1, l2 with
@@ -365,6 +413,7 @@ FALLBACK = {
     "dominates": "Definition dominates_src (a b : cand) : bool := dominates a b.",
     "arity": "Definition arity_ok_src (m : meth) (nargs : nat) (names : list nat) : bool := arity_ok m nargs names.",
     "pull": "Definition grp_src (kept rest : list cand) : list cand := grp kept rest.",
+    "missing": "Definition missing_code_src (foreign remembered stored : bool) : code_action := code_action_of foreign remembered stored.",
     "tail": "Definition cls_tail_src (s12 s21 : bool) : order := if s12 && s21 then SAME else if s12 then LESS else if s21 then MORE else NONE.",
 }
 
@@ -384,7 +433,8 @@ def regenerate():
             ("dominates", lambda: tr_dominates(_find(tm_tree, "Candidate", "dominates"))),
             ("arity", lambda: tr_arity(tm_tree)),
             ("pull", lambda: tr_pull(tm_tree)),
-            ("tail", lambda: tr_tail(mro_tree))]
+            ("tail", lambda: tr_tail(mro_tree)),
+            ("missing", lambda: tr_missing(tm_tree))]
     ok = True
     for name, job in jobs:
         try:
